@@ -4,6 +4,7 @@ import (
 	"context"
 	"encoding/json"
 	"fmt"
+	"strings"
 
 	"github.com/oapi-codegen/oapi-codegen/v2/pkg/codegen"
 )
@@ -26,6 +27,14 @@ func runC19Multi(r *Report) {
 		{Name: "c19_other", Spec: virtualFiles["other.yaml"], Cfg: codegen.Configuration{Generate: codegen.GenerateOptions{Models: true, EmbeddedSpec: true}, OutputOptions: codegen.OutputOptions{SkipPrune: true}}},
 		{Name: "c19_mapped", Spec: []byte(mapped), Cfg: codegen.Configuration{Generate: gen, ImportMapping: map[string]string{"other.yaml": "lab/pkgs/c19_other"}}},
 	}
+	// a document larger than 1 MiB (one long non-ASCII description): the generated decoder must give all of it back
+	bigDesc := strings.Repeat("große Beschreibung — 大きな説明 ", 40000)
+	bigSpec, _ := json.Marshal(map[string]any{"openapi": "3.0.3", "info": map[string]any{"title": "big", "version": "1"},
+		"paths": map[string]any{"/big": map[string]any{"get": map[string]any{"operationId": "GetBig", "responses": map[string]any{"200": map[string]any{"description": "ok",
+			"content": map[string]any{"application/json": map[string]any{"schema": map[string]any{"$ref": "#/components/schemas/Big"}}}}}}}},
+		"components": map[string]any{"schemas": map[string]any{"Big": map[string]any{"type": "object", "description": bigDesc, "properties": map[string]any{"b": map[string]any{"type": "string"}}}}}})
+	pkgs = append(pkgs, LabPkg{Name: "c19_big", Spec: bigSpec, Cfg: codegen.Configuration{Generate: codegen.GenerateOptions{Models: true, EmbeddedSpec: true}}})
+	r.Dist[fmt.Sprintf("big_document_bytes=%d", len(bigSpec))]++
 	lab, err := BuildLab(labRoot, "c19", pkgs)
 	if err != nil {
 		r.Violate("lab_build_failed", err.Error(), nil)
@@ -34,7 +43,7 @@ func runC19Multi(r *Report) {
 	var scenarios []map[string]any
 	for _, p := range pkgs {
 		if st := lab.Status[p.Name]; !st.OK {
-			r.Violate("multi_document_package_broken/"+p.Name, trunc(st.GenerateError+" "+st.CompileError, 600), map[string]any{"spec": json.RawMessage(p.Spec)})
+			r.Violate("multi_document_package_broken/"+p.Name, trunc(st.GenerateError+" "+st.CompileError, 600), map[string]any{"spec_text": trunc(string(p.Spec), 4000)})
 			continue
 		}
 		scenarios = append(scenarios, map[string]any{"id": p.Name, "pkg": p.Name, "opts": map[string]any{"short_circuit": -1, "strict_short_circuit": -1}, "swagger": map[string]any{}})
@@ -49,7 +58,7 @@ func runC19Multi(r *Report) {
 		if res == nil {
 			continue
 		}
-		replay := map[string]any{"package": p.Name, "spec": json.RawMessage(p.Spec), "import_mapping": p.Cfg.ImportMapping, "external_documents": []string{"paths/pets.yaml", "other.yaml"}}
+		replay := map[string]any{"package": p.Name, "spec_text": trunc(string(p.Spec), 4000), "import_mapping": p.Cfg.ImportMapping, "external_documents": []string{"paths/pets.yaml", "other.yaml"}}
 		r.Count("multi:"+p.Name, true)
 		r.Dist["family=multi-document"]++
 		if res.Err != "" {
